@@ -193,10 +193,12 @@ CLAIMED = {
    text=('Theorems (Props/C11.v): the insert loop of add() (index resolved once, insert, index += 1) equals ONE contiguous '
          'splice for every index (None, in range, out of range, negative) and every number of new routes; a failing '
          'constructor/add/embed - whichever route of whichever embedded application fails - leaves the whole world unchanged; '
-         'an operation changes at most its target application; embedding A in B never writes A. Tie: random histories of '
+         'an operation changes at most its target application; embedding A in B never writes A and inserts EVERY route of A, in '
+         'its order, as one contiguous block (C11_embed_refines_table). Tie: random histories of '
          'construct / add / embed / failing entries with one Route object bound into several applications; after EVERY '
          'operation every live application (bound-route snapshots and probe responses) and every Route object is compared '
-         'with the model and with the frame/atomicity/splice oracles; non-termination of an operation is reported with the '
+         'with the model and with the frame/atomicity/splice oracles, with a fresh declaration of its routing table (the table is '
+         'what answers) and with what the application was constructed with (never changes); non-termination of an operation is reported with the '
          'history as replay.'),
    note=COMMON_NOTE + WORLD_NOTE,
    technique='Coq proof (arithmetic/list proof that the insert loop is a splice; case analysis for atomicity and frame over the world-step function) + extracted-model differential check on operation histories',
@@ -267,7 +269,9 @@ CLAIMED = {
          'and clastic\'s cycle test, construction succeeds iff the declarative availability table resolves every required '
          'parameter, every failure is NameError; an accepted plan never produces a missing/unexpected/unbound argument under '
          'any script assignment and any injected environment (partial: positional-only parameters excluded = known finding F2, '
-         'witnessed by C01_posonly_refuted). Tie: reserved/builtin tables regenerated from the source + differential run '
+         'witnessed by C01_posonly_refuted); the same for an application embedded under a prefix in an outer one '
+         '(C01_nested_accept, C01_nested_no_arg_error_partial over Chain.build_nested). Tie: reserved/builtin tables and the control-flow '
+         'skeletons of the transcribed functions regenerated from the source + differential run '
          'of the extracted model against real Applications built from generated configurations.'),
    note=COMMON_NOTE + CHAIN_NOTE, technique='Coq proof (refinement of the bind-time check to a declarative spec; induction over chains) + translator-generated tables + extracted-model differential check',
    design='6/C01'),
@@ -303,7 +307,9 @@ CLAIMED = {
          'twice (URL, reserved built-ins, resources, any provides tuple, counted as a multiset) => construction fails '
          '(NameError once the middleware shapes are fine); Ok => sources NoDup; reserved application resource => NameError; '
          'middleware function without next first => rejected; next in endpoint/render => NameError; no accepted route has a '
-         'request/endpoint-phase function requiring context. Tie: one generated stream per defect kind (27 kinds incl. conflicts '
+         'request/endpoint-phase function requiring context; embedded placement: the URL bindings of the prefix, the resources of all '
+         'levels and every provides tuple of the flat list are pairwise distinct, a prefix binding that is also a resource / reserved '
+         'name / route binding is rejected (C04_nested_sources_distinct, C04_nested_prefix_conflict_rejected). Tie: one generated stream per defect kind (27 kinds incl. conflicts '
          'between the URL bindings of an embedding prefix and inner resources / provides / built-ins, '
          'instance-level functions and one middleware offering a name in two phases) mixed into valid configurations.'),
    note=COMMON_NOTE + CHAIN_NOTE, technique='Coq proof (has_dup/NoDup characterisation of check_middlewares, case analysis of make_middleware_chain) + translator-generated tables + extracted-model differential check',
